@@ -110,7 +110,7 @@ def run_pinned(chk):
         chk.report("translator-unsupported:" + w, "the translator does not understand `%s` in %s; the table-level theorems cannot cover it" % (s[:200], w),
                    {"where": w, "source": s}, found_input=False)
     broken = chk.broken_obligations()
-    if broken and not any(v["found_input"] for v in chk.violations) and not chk.known_hits:
+    if broken and not any(v["found_input"] for v in chk.violations):
         diag = table_diagnostics()
         for name, why in broken.items():
             chk.report("obligation:" + name, "theorem %s no longer checks: %s | table diagnostics: %s" % (name, why, diag.replace("\n", " ; ")),
